@@ -455,6 +455,10 @@ impl DebugSession {
         message: Option<String>,
         body: Option<Value>,
     ) -> anyhow::Result<()> {
+        // the sequence number is taken under the transport lock: the output forwarders share the
+        // counter and numbers must appear on the wire in the order they were handed out
+        let io = self.io.clone();
+        let mut lock = io.lock().unwrap();
         let rsp = DapResponse {
             seq: self.next_seq(),
             r#type: "response",
@@ -468,7 +472,6 @@ impl DebugSession {
 
         #[cfg(feature = "verif")]
         crate::verif::delay_point("dap_seq.response");
-        let mut lock = self.io.lock().unwrap();
         lock.write_message(&value)
     }
 
@@ -482,10 +485,11 @@ impl DebugSession {
     }
 
     fn send_event_raw(&mut self, name: &'static str, body: Option<Value>) -> anyhow::Result<()> {
+        let io = self.io.clone();
+        let mut lock = io.lock().unwrap();
         let seq = self.next_seq();
         #[cfg(feature = "verif")]
         crate::verif::delay_point("dap_seq.event");
-        let mut lock = self.io.lock().unwrap();
 
         protocol::send_event(seq, &mut *lock, name, body)
     }
@@ -547,12 +551,11 @@ impl DebugSession {
                 match reader.read_line(&mut buf) {
                     Ok(0) => break,
                     Ok(_) => {
-                        let s = seq.fetch_add(1, std::sync::atomic::Ordering::Relaxed);
-
                         {
+                            let mut lock = io.lock().unwrap();
+                            let s = seq.fetch_add(1, std::sync::atomic::Ordering::Relaxed);
                             #[cfg(feature = "verif")]
                             crate::verif::delay_point("dap_seq.output");
-                            let mut lock = io.lock().unwrap();
                             // TODO log it somehow
                             _ = protocol::send_event(
                                 s,
@@ -578,12 +581,11 @@ impl DebugSession {
                 match reader.read_line(&mut buf) {
                     Ok(0) => break,
                     Ok(_) => {
-                        let s = seq.fetch_add(1, std::sync::atomic::Ordering::Relaxed);
-
                         {
+                            let mut lock = io.lock().unwrap();
+                            let s = seq.fetch_add(1, std::sync::atomic::Ordering::Relaxed);
                             #[cfg(feature = "verif")]
                             crate::verif::delay_point("dap_seq.output");
-                            let mut lock = io.lock().unwrap();
                             // TODO log it somehow
                             _ = protocol::send_event(
                                 s,
